@@ -42,6 +42,9 @@ struct trie_node {
 	struct trie_node **children;
 	uint32_t num_children;
 	uint32_t refcount;
+	/* set by qb_map_rm() while iterators are positioned on the node:
+	 * the value lingers until they have moved on, but the key is gone */
+	int32_t removed;
 	struct trie_node *parent;
 	struct qb_list_head *notifier_head;
 };
@@ -78,6 +81,16 @@ trie_node_alive(struct trie_node *node)
 	return QB_TRUE;
 }
 
+/*
+ * the key of this node is in the map (trie_node_alive() is also true for
+ * a removed node that an iterator still holds).
+ */
+static int32_t
+trie_node_present(struct trie_node *node)
+{
+	return (trie_node_alive(node) && !node->removed);
+}
+
 static struct trie_node *
 trie_node_next(struct trie_node *node, struct trie_node *root, int all)
 {
@@ -98,7 +111,7 @@ keep_going:
 		}
 	}
 	if (n) {
-		if (all || trie_node_alive(n)) {
+		if (all || trie_node_present(n)) {
 			return n;
 		} else {
 			c = n;
@@ -124,7 +137,7 @@ keep_going:
 	} while (n == NULL && p != root);
 
 	if (n) {
-		if (all || trie_node_alive(n)) {
+		if (all || trie_node_present(n)) {
 			return n;
 		}
 		if (n == root) {
@@ -194,9 +207,11 @@ trie_node_split(struct trie *t, struct trie_node *cur_node, int seg_cnt)
 	split_node->value = cur_node->value;
 	split_node->key = cur_node->key;
 	split_node->refcount = cur_node->refcount;
+	split_node->removed = cur_node->removed;
 	cur_node->value = NULL;
 	cur_node->key = NULL;
 	cur_node->refcount = 0;
+	cur_node->removed = QB_FALSE;
 	/* move notifier list to split */
 	tmp = split_node->notifier_head;
 	split_node->notifier_head = cur_node->notifier_head;
@@ -392,6 +407,7 @@ trie_node_destroy(struct trie *t, struct trie_node *n)
 
 	n->key = NULL;
 	n->value = NULL;
+	n->removed = QB_FALSE;
 
 	trie_node_release(t, n);
 }
@@ -526,6 +542,14 @@ trie_put(struct qb_map *map, const char *key, const void *value)
 		const char *old_value = n->value;
 		const char *old_key = n->key;
 
+		if (n->removed) {
+			/* removed, but kept by an iterator: that removal
+			 * is completed now, this is a new entry */
+			trie_notify(n, QB_MAP_NOTIFY_DELETED,
+				    n->key, n->value, NULL);
+			n->removed = QB_FALSE;
+			old_value = NULL;
+		}
 		n->key = (char *)key;
 		n->value = (void *)value;
 
@@ -547,7 +571,8 @@ trie_rm(struct qb_map *map, const char *key)
 {
 	struct trie *t = (struct trie *)map;
 	struct trie_node *n = trie_lookup(t, key, QB_TRUE);
-	if (n && trie_node_alive(n)) {
+	if (n && trie_node_present(n)) {
+		n->removed = QB_TRUE;
 		trie_node_deref(t, n);
 		t->length--;
 		return QB_TRUE;
@@ -561,7 +586,7 @@ trie_get(struct qb_map *map, const char *key)
 {
 	struct trie *t = (struct trie *)map;
 	struct trie_node *n = trie_lookup(t, key, QB_TRUE);
-	if (n) {
+	if (n && !n->removed) {
 		return n->value;
 	}
 
@@ -752,7 +777,7 @@ trie_iter_next(qb_map_iter_t * i, void **value)
 		si->root = trie_lookup(t, si->prefix, QB_FALSE);
 		if (si->root == NULL) {
 			si->n = NULL;
-		} else if (si->root->value == NULL) {
+		} else if (!trie_node_present(si->root)) {
 			si->n = trie_node_next(si->root, si->root, QB_FALSE);
 		} else {
 			si->n = si->root;
